@@ -33,7 +33,68 @@ func requested(c *Case) []Iface {
 	return out
 }
 
+func typeNames(t T, out map[string]bool) {
+	switch t.K {
+	case "basic", "tparam":
+		out[t.N] = true
+	case "named", "alias":
+		if t.P < 0 {
+			out[t.N] = true
+		}
+	}
+	for _, e := range t.E {
+		typeNames(e, out)
+	}
+	for _, e := range t.R {
+		typeNames(e, out)
+	}
+}
+
 func init() {
+	// a user-written parameter name that the generated body or signature still needs
+	shapeFuncs["names:user-shadows"] = func(c *Case, p *Prediction) bool {
+		for _, it := range requested(c) {
+			for _, m := range it.Methods {
+				used := map[string]bool{"mock": true, "callInfo": true}
+				for _, q := range append(append([]Param{}, m.Params...), m.Results...) {
+					typeNames(q.T, used)
+				}
+				for _, q := range m.Params {
+					if q.Name != "" && q.Name != "_" && used[q.Name] {
+						return true
+					}
+				}
+			}
+		}
+		return false
+	}
+	// method names that collide with what the template derives from other methods
+	shapeFuncs["methods:name-collision"] = func(c *Case, p *Prediction) bool {
+		for _, it := range requested(c) {
+			names := map[string]bool{}
+			for _, m := range it.Methods {
+				names[m.Name] = true
+			}
+			for n := range names {
+				if names[n+"Func"] || names[n+"Calls"] || names["Reset"+n+"Calls"] || n == "calls" || (n == "ResetCalls" && c.Cfg.WithResets) {
+					return true
+				}
+			}
+		}
+		return false
+	}
+	// one mock name requested twice
+	shapeFuncs["args:duplicate-mock-name"] = func(c *Case, p *Prediction) bool {
+		seen := map[string]bool{}
+		for _, a := range c.Cfg.Args {
+			_, mn := mockNameOf(a)
+			if seen[mn] {
+				return true
+			}
+			seen[mn] = true
+		}
+		return false
+	}
 	// two distinct parameters of one method share a record field name
 	shapeFuncs["names:exported-collision"] = func(c *Case, p *Prediction) bool {
 		for _, it := range requested(c) {
